@@ -23,9 +23,9 @@ ASSUMPTIONS = [
     "value restoration is judged by the C01 oracle (strict, or fixpoint at ambiguous unions), so the same two union findings apply",
 ]
 PLAN = {"quick": dict(programs=2000, values=5, depth=3), "thorough": dict(programs=40000, values=10, depth=5)}
-FLOORS = {"quick": {"carrier_documents_decoded": 20000, "subclass_instance_values": 300, "json_validity_checked": 25000, "entrypoint_agreements": 25000, "coder_call_checks": 15000, "bytes_types_checked": 300, "types_given_by_reference": 3000,
+FLOORS = {"quick": {"encode_without_type": 1500, "carrier_documents_decoded": 20000, "subclass_instance_values": 300, "json_validity_checked": 25000, "entrypoint_agreements": 25000, "coder_call_checks": 15000, "bytes_types_checked": 300, "types_given_by_reference": 3000,
                     "bytes_types_wrapped_checked": 300, "bytes_type_forms": 40, "passthrough_roots_checked": 2500},
-          "thorough": {"carrier_documents_decoded": 700000, "subclass_instance_values": 10000, "json_validity_checked": 900000, "entrypoint_agreements": 900000, "coder_call_checks": 500000, "bytes_types_checked": 10000, "types_given_by_reference": 100000,
+          "thorough": {"encode_without_type": 50000, "carrier_documents_decoded": 700000, "subclass_instance_values": 10000, "json_validity_checked": 900000, "entrypoint_agreements": 900000, "coder_call_checks": 500000, "bytes_types_checked": 10000, "types_given_by_reference": 100000,
                        "bytes_types_wrapped_checked": 10000, "bytes_type_forms": 60, "passthrough_roots_checked": 50000}}
 
 
@@ -77,6 +77,16 @@ def canaries(sh):
     c.encode({"a": 1})
     c.encode({"a": 1})
     sh.canary("double-call-visible", len(c.enc_calls) == 2)
+
+
+def outcome_of(fn):
+    try:
+        with quiet():
+            return ("ok", bytes(fn()))
+    except (RecursionError, MemoryError):
+        return ("skip",)
+    except Exception as e:  # noqa: BLE001
+        return ("raised", type(e).__name__)
 
 
 def subclass_instance(spec, v, rng):
@@ -217,6 +227,12 @@ def one_value(sh, spec, v, prog, rng, coders, judge=True):
                 sh.violation("entrypoints-disagree-value", detail=f"document as {ck}: codec={short(uc1, 120)} api={short(uc2, 120)} from bytes={short(u1, 120)}", **rec)
         except Exception as e:  # noqa: BLE001
             sh.violation("entrypoint-raised", exc=type(e).__name__, detail=f"document as {ck}: {e}"[:300], **rec)
+        # the type left out: `typelib.encode(v)` takes the value's own class, so it must agree with the codec of that class
+        if cfg == "default" and spec.kind in ("struct", "scalar", "enum") and isinstance(T, type) and type(v) is T:
+            sh.count("encode_without_type")
+            e1, e2 = outcome_of(lambda: typelib.encode(v)), outcome_of(lambda: typelib.codec(type(v)).encode(v))
+            if e1 != e2:
+                sh.violation("entrypoints-disagree-bytes", detail=f"type left out: typelib.encode(v)={short(e1, 160)} codec(type(v)).encode(v)={short(e2, 160)}", **rec)
         # restoration (C01 rule) - judged once per value on the codec result
         if cfg == "default" and judge:
             if not c01.judge(sh, spec, v, u1, tsrc) and sh.violations:
